@@ -172,6 +172,19 @@ func (g *Generator) generateMockFieldAssignments(
 ) {
 	messageName := string(message.Desc.Name())
 
+	// Recursive message types (directly or through other messages, map values, oneofs)
+	// would otherwise be expanded forever: a type already being filled is left empty.
+	fullName := message.Desc.FullName()
+	if g.mockInProgress[fullName] {
+		gf.P("// ", messageName, " is recursive: nested value left empty")
+		return
+	}
+	if g.mockInProgress == nil {
+		g.mockInProgress = make(map[protoreflect.FullName]bool)
+	}
+	g.mockInProgress[fullName] = true
+	defer delete(g.mockInProgress, fullName)
+
 	for _, field := range message.Fields {
 		fieldName := field.GoName
 		fieldPath := messageName + "." + string(field.Desc.Name())
